@@ -381,7 +381,18 @@ def make_goal(su, goal):
             mag = min(hi * 10.0 ** (0.05 + 2 * u), 0.5)
         d = unit(goal["dir"])
         Gm = T0.copy()
-        if goal["mode"] == "rot":
+        if where == "just_over":
+            # JUST outside the tolerance that governs this kind of error (5 % .. 70 % over), spread evenly over the
+            # three axes, the other kind of error exactly zero (the rotation is about the tool point): the start is
+            # NOT a solution, a solver may not accept it as it stands
+            own = su.rt if goal["mode"] == "rot" else su.pt
+            mag = own * (1.05 + 0.65 * u)
+            d = np.sign(d + (d == 0)) / math.sqrt(3.0)
+            if goal["mode"] == "rot":
+                Gm[:3, :3] = O.exp3(d * mag) @ T0[:3, :3]
+            else:
+                Gm[:3, 3] = T0[:3, 3] + d * mag
+        elif goal["mode"] == "rot":
             Gm = O.rp(O.exp3(d * mag), np.zeros(3)) @ T0
         else:
             Gm[:3, 3] = T0[:3, 3] + d * mag
@@ -654,7 +665,7 @@ def goal_reach():
     return st.fixed_dictionaries({"kind": st.just("reach"), "code": A.theta_codes(), "boundary": BOUNDARY})
 
 
-def goal_between(where=("between", "between", "between", "between", "below", "above")):
+def goal_between(where=("between", "between", "between", "between", "below", "above", "just_over", "just_over")):
     return st.fixed_dictionaries({"kind": st.just("between"), "code": A.theta_codes(), "boundary": BOUNDARY,
                                   "mode": st.sampled_from(["rot", "trans"]), "dir": UNIT, "u": U01,
                                   "where": st.sampled_from(list(where))})
